@@ -882,3 +882,34 @@ def param_untouched(fnode, name):
         if isinstance(n, ast.Subscript) and is_name(n.value, name) and isinstance(n.ctx, (ast.Store, ast.Del)):
             return n
     return None
+
+
+def reaching_defs(g, nid, name):
+    """the value expressions (or the defining node for loop/with targets) of the definitions of
+    the local *name* that reach CFG node *nid* (backward search, stops at each definition)"""
+    out, seen = [], set()
+    work = [p for p, _k in g.pred[nid]]
+    while work:
+        n = work.pop()
+        if n in seen:
+            continue
+        seen.add(n)
+        node = g.node(n)
+        a = node.ast
+        hit = None
+        if node.kind == 'stmt' and isinstance(a, ast.Assign) and any(
+                is_name(x, name) for t in a.targets for x in ast.walk(t) if isinstance(x, ast.Name)):
+            hit = a.value if any(is_name(t, name) for t in a.targets) else a
+        elif node.kind == 'stmt' and isinstance(a, (ast.AugAssign, ast.AnnAssign)) and is_name(a.target, name):
+            hit = a
+        elif node.kind == 'for' and any(is_name(x, name) for x in ast.walk(node.stmt.target)):
+            hit = node.stmt
+        elif node.kind == 'with' and any(it.optional_vars is not None and any(
+                is_name(x, name) for x in ast.walk(it.optional_vars)) for it in node.stmt.items):
+            hit = node.stmt
+        if hit is not None:
+            if not any(h is hit for h in out):
+                out.append(hit)
+            continue
+        work.extend(p for p, _k in g.pred[n])
+    return out
